@@ -669,6 +669,15 @@ class EncEval:
                     raise EncOpaque("a byte position is advanced by 1 over a character that may be longer than one byte")
                 r = ("pos", pv[1] + 1)
                 return ("tuple", [r, ("bool", False)]) if op.endswith("WithOverflow") else r
+            if op.startswith("Add") and a[0] in ("int", "nz") and b[0] in ("int", "nz"):
+                # counters (`escape_count += 1`): known exactly while both are constants, afterwards only as zero / non-zero
+                if a[0] == "int" and b[0] == "int":
+                    r = ("int", a[1] + b[1])
+                else:
+                    nza = a[1] if a[0] == "nz" else a[1] != 0
+                    nzb = b[1] if b[0] == "nz" else b[1] != 0
+                    r = ("nz", bool(nza or nzb))
+                return ("tuple", [r, ("bool", False)]) if op.endswith("WithOverflow") else r
             if op.endswith("WithOverflow"):
                 return ("tuple", [UNK, ("bool", False)])
             import operator
